@@ -144,8 +144,10 @@ def run_build(c, P):
 
 def _run_build(c, P):
     w = new_world()
-    ws, sock = connected(c, w)
     kind = P['kind']
+    # (argument-type cases use a concrete masking key: a native bytearray handed in by the caller must flow
+    #  through the library un-modelled so that an in-place modification is observable)
+    ws, sock = connected(c, w, symbolic_key=(kind != 'types'))
     if kind == 'compressed':
         return _run_compressed(c, w, ws, sock, P)
     lens = P['lens']
@@ -251,7 +253,22 @@ def _run_build(c, P):
             ('send_pong(None)', lambda: ws.send_pong(None)),
         ]
         name, fn = cases[which]
-        expect_reject(c, w, sock, fn, name)
+        if name == 'send_binary(bytearray)':
+            mine = bytearray(b'caller-owned buffer')
+            keep = bytes(mine)
+            try:
+                ws.send_binary(mine)
+                accepted = True
+            except (TypeError, ValueError):
+                accepted = False
+            if bytes(mine) != keep:
+                c.fail('C03: send_binary modified the caller\'s bytearray in place', sig='C03: caller data modified')
+            if accepted:
+                c.fail('C03: send_binary(bytearray) was accepted', sig='C03: accepted: send_binary')
+            if any(e[0] in ('write', 'write-failed') for e in w.log):
+                c.fail('C03: send_binary(bytearray) was rejected but bytes were written')
+        else:
+            expect_reject(c, w, sock, fn, name)
         cls = 'types:' + name
     elif kind == 'json':
         which = c.choose(4, 'case')
